@@ -53,3 +53,18 @@ Theorem C04_flag_fields_not_decodable :
   forallb flag_field_is_skipped ["Response"; "Assertion"; "LogoutResponse"; "LogoutRequest"]%string = true.
 Proof. exact flag_fields_not_decodable. Qed.
 Print Assumptions C04_flag_fields_not_decodable.
+
+(* source tie: the flag returned by the TRANSLATED ValidateEncodedResponse of this run *)
+From V Require Import Generated Keys GenPrelude GenPreludeD GenPreludeT GenFuncs GenTree P_GenTree P_GenTreeProps.
+Theorem C04_source_response_flag_iff_root_verified : forall parse dsig decrypt cfg now enc r,
+  cfg_skip_sig cfg = false ->
+  G_ValidateEncodedResponse parse dsig (decrypt_assertions decrypt) cfg now enc = PVal (Ok (Some r)) ->
+  exists raw root, b64_decode enc = Ok raw /\ parse raw = Ok root /\ (r_signature_validated r = true <-> exists v, dsig root = DOk v).
+Proof. exact source_response_flag_iff. Qed.
+Print Assumptions C04_source_response_flag_iff_root_verified.
+
+Theorem C04_source_skip_means_no_flag : forall parse dsig decrypt cfg now enc r,
+  cfg_skip_sig cfg = true ->
+  G_ValidateEncodedResponse parse dsig (decrypt_assertions decrypt) cfg now enc = PVal (Ok (Some r)) -> r_signature_validated r = false.
+Proof. exact source_skip_means_no_flag. Qed.
+Print Assumptions C04_source_skip_means_no_flag.
